@@ -415,12 +415,33 @@ def check_exact(desc, ctx):
     kw = {}
     if desc["guess"] == "user":
         kw["param_guess"] = _user_guess(model, params, desc["gf"])
+    # a fifth of the cases run with a small evaluation budget (documented optimization_params): a fit that has not
+    # converged within it must be refused, a fit that is returned must reproduce the data all the same
+    budget = [None, None, None, None, 3, None, None, None, None, 8][int(desc["gf"][0] * 1e6) % 10] if model != "Virial" else None
+    if budget is not None:
+        kw["optimization_params"] = {"max_nfev": budget}
     try:
         mi = _fit(desc["path"], p, l, model, _meta(rel, spec["T_K"]), **kw)
     except CalculationError:
-        ctx.label("refused:" + model)
+        ctx.label("refused:" + model + (":budget" if budget else ""))
         raise Inconclusive()
     err = _misfit(mi, p, l)
+    if budget is not None:
+        ctx.label("returned_within_small_budget")
+        full_ok = False
+        if not err <= TOL_CURVE:
+            # only a failure that the budget causes is judged here: with the default budget the same fit must reproduce
+            # the data (otherwise it is the ordinary exact-recovery clause below, with its own known class)
+            try:
+                kw_full = {k: v for k, v in kw.items() if k != "optimization_params"}
+                full_ok = _misfit(_fit(desc["path"], p, l, model, _meta(rel, spec["T_K"]), **kw_full), p, l) <= TOL_CURVE
+            except CalculationError:
+                full_ok = False
+        if not err <= TOL_CURVE and full_ok:
+            raise Violation(
+                f"{model} fitted ({desc['path']}, {desc['guess']} guess, max_nfev={budget}) to {len(p)} points generated from "
+                f"its own equation with {params}: the fit was returned (not refused) but max|fit-data|/max data = {err:.3g} > "
+                f"{TOL_CURVE}; returned { {k: float(v) for k, v in mi.model.params.items()} }", tag="unconverged_fit_returned")
     ctx.label("fit:" + model, "natural" if spec["natural"] else "wide_magnitude", "path:" + desc["path"],
               "guess:" + desc["guess"])
     if not err <= TOL_CURVE:
